@@ -364,9 +364,7 @@ impl ShardSplitter {
                 min_time: old_metadata.min_time,
                 max_time: split_ts,
             };
-            self.metadata
-                .update_shard_metadata(&new_shard_a.shard_id, &new_shard_a, 0)
-                .await?;
+            self.create_new_shard(&new_shard_a).await?;
             progress.shard_a_created = true;
             self.persist_progress(progress).await?;
         }
@@ -385,9 +383,7 @@ impl ShardSplitter {
                 min_time: split_ts,
                 max_time: old_metadata.max_time,
             };
-            self.metadata
-                .update_shard_metadata(&new_shard_b.shard_id, &new_shard_b, 0)
-                .await?;
+            self.create_new_shard(&new_shard_b).await?;
             progress.shard_b_created = true;
             self.persist_progress(progress).await?;
         }
@@ -414,6 +410,27 @@ impl ShardSplitter {
             progress.fence_token, progress.new_shards[0], progress.new_shards[1]
         );
         Ok(())
+    }
+
+    /// Create a new shard of this split, tolerating that an interrupted earlier attempt
+    /// already created it (the creation took effect but was not recorded in the progress).
+    async fn create_new_shard(&self, shard: &ShardMetadata) -> Result<()> {
+        match self
+            .metadata
+            .update_shard_metadata(&shard.shard_id, shard, 0)
+            .await
+        {
+            Ok(()) => Ok(()),
+            Err(e @ crate::Error::StaleGeneration { .. }) => {
+                // The id is a fresh UUID owned by this split: if the shard exists with the
+                // range we were about to give it, the earlier attempt got this far.
+                match self.metadata.get_shard_metadata(&shard.shard_id).await? {
+                    Some(existing) if existing.key_range == shard.key_range => Ok(()),
+                    _ => Err(e),
+                }
+            }
+            Err(e) => Err(e),
+        }
     }
 
     // ── Individual phase implementations ─────────────────────────────
